@@ -5,7 +5,8 @@ Require Import Cirbo.Model.Base Cirbo.Model.Gate Cirbo.Model.Den Cirbo.Model.Cir
 Require Import Cirbo.Generated.ArithTables Cirbo.Generated.ArithCells.
 Require Import Cirbo.Model.ArithSub Cirbo.Model.ArithSum2 Cirbo.Model.ArithSumN.
 Require Import Cirbo.Proofs.DictFacts Cirbo.Proofs.BuilderFacts Cirbo.Proofs.ArithFacts
-  Cirbo.Proofs.ArithSubFacts Cirbo.Proofs.ArithSum2Facts Cirbo.Proofs.ArithSumCells Cirbo.Proofs.ArithSumNFacts.
+  Cirbo.Proofs.ArithSubFacts Cirbo.Proofs.ArithSum2Facts Cirbo.Proofs.ArithSumCells Cirbo.Proofs.ArithSumNFacts
+  Cirbo.Proofs.ArithSumXaigCount.
 Open Scope Z_scope.
 
 (* ---- basis resolution --------------------------------------------------------------------------- *)
@@ -32,25 +33,33 @@ Lemma run_resolve fresh basis s b s1 :
 Proof. apply ret_res_inv. Qed.
 
 (* ---- add_sum_n_bits ------------------------------------------------------------------------------ *)
+(* the documented bounds: AIG gates <= 7 n - 3 m, XAIG gates <= 4.5 n - 2 m *)
+Definition nbits_bound (b : gen_basis) (g m n : nat) : Prop :=
+  match b with
+  | AIG => (g + 3 * m <= 7 * n)%nat
+  | XAIG => (2 * g + 4 * m <= 9 * n)%nat
+  end.
+
 Lemma add_sum_n_bits_resolved_spec fresh b xs s rs s' :
   run fresh (add_sum_n_bits_resolved b xs) s = Ok (rs, s') ->
   outputs (bc s') = outputs (bc s) /\
-  (exists g, adds (t_of b) (bc s) (bc s') g /\ (b = AIG -> (g + 3 * length rs <= 7 * length xs)%nat)) /\
+  (exists g, adds (t_of b) (bc s) (bc s') g /\ nbits_bound b g (length rs) (length xs)) /\
   forall c, ext (bc s') c -> forall asg xv, bvals c asg xs xv ->
     exists rv, bvals c asg rs rv /\ bits_val rv = ones xv.
 Proof.
   destruct b; simpl; intros H.
-  - apply add_sum_n_bits_xaig_spec in H as (O & (g & A) & V). split; [exact O|]. split; [|exact V].
-    exists g. split; [exact A|discriminate].
+  - pose proof (add_sum_n_bits_xaig_count _ _ _ _ _ H) as (g & A & Bd).
+    apply add_sum_n_bits_xaig_spec in H as (O & _ & V). split; [exact O|]. split; [|exact V].
+    exists g. split; [exact A|exact Bd].
   - apply add_sum_n_bits_aig_spec in H as (O & (g & A & Bd) & V). split; [exact O|]. split; [|exact V].
-    exists g. split; [exact A|intros _; exact Bd].
+    exists g. split; [exact A|exact Bd].
 Qed.
 
 Theorem add_sum_n_bits_correct fresh basis be xs s rs s' :
   run fresh (add_sum_n_bits basis be xs) s = Ok (rs, s') ->
   exists b, resolve_basis basis = Ok b /\
     ext (bc s) (bc s') /\ inputs (bc s') = inputs (bc s) /\ outputs (bc s') = outputs (bc s) /\
-    (exists g, adds (t_of b) (bc s) (bc s') g /\ (b = AIG -> (g + 3 * length rs <= 7 * length xs)%nat)) /\
+    (exists g, adds (t_of b) (bc s) (bc s') g /\ nbits_bound b g (length rs) (length xs)) /\
     forall c, ext (bc s') c -> forall asg xv, bvals c asg xs xv ->
       exists rv, bvals c asg rs rv /\ decode be rv = ones xv.
 Proof.
